@@ -130,6 +130,45 @@ def case_array(ctx, rng):
         if o_.ok and len({str(np.asarray(b).dtype) for b in o_.value.blocks.values()}) > 1:
             x = o_.value
             ctx.count("feature", "mixed-dtype-blocks")
+    if op != "squeeze" and x.ndim and rng.random() < 0.2:
+        # the subject is itself the RESULT of a short history of library operations (its block
+        # order, dropped charges, shared index objects are whatever those left behind)
+        hist = []
+        for _ in range(rng.randint(1, 3)):
+            h = rng.choice(["transpose", "conj-conj", "expand-squeeze", "fuse-unfuse", "add-zero-partner", "multiply_diagonal-ones", "scalar", "copy", "transpose-inplace"])
+            try:
+                if h == "transpose" and x.ndim:
+                    x2 = x.transpose(tuple(rng.sample(range(x.ndim), x.ndim)))
+                elif h == "conj-conj":
+                    x2 = x.conj().conj()
+                elif h == "expand-squeeze":
+                    k_ = rng.randint(0, x.ndim)
+                    x2 = x.expand_dims(k_).squeeze(k_)
+                elif h == "fuse-unfuse" and x.ndim >= 2:
+                    g_ = tuple(rng.sample(range(x.ndim), 2))
+                    x2 = x.fuse(g_).unfuse_all()
+                elif h == "add-zero-partner":
+                    x2 = x + (x * 0.0)
+                elif h == "multiply_diagonal-ones":
+                    k_ = rng.randrange(x.ndim)
+                    cm_ = x.indices[k_].chargemap
+                    keep_ = [c for c in cm_ if rng.random() < 0.8] or list(cm_)
+                    x2 = x.multiply_diagonal(sr.BlockVector({c: np.ones(cm_[c], dtype=embed(x).dtype) for c in keep_}), k_)
+                elif h == "scalar":
+                    x2 = (x * 2.0) / 2.0
+                elif h == "transpose-inplace" and x.ndim:
+                    x2 = x.copy()
+                    x2.transpose(tuple(rng.sample(range(x.ndim), x.ndim)), inplace=True)
+                else:
+                    x2 = x.copy()
+            except Exception:
+                continue
+            if x2.ndim == 0 or not x2.blocks:
+                continue
+            x = x2
+            hist.append(h)
+        if hist:
+            ctx.count("feature", "subject-with-history")
     d = embed(x)
     wit = {"x": describe(x, True)}
     sig = struct_sig(x)
